@@ -31,8 +31,10 @@ Definition expected_flac (p : flac_p) : list Z :=
    fl_total p; fl_rate p; fl_md5 p].
 
 (* ------------------------------------------------------------------ CODE side *)
-(* StreamInfo.load(data): data is a BytesIO over the block content (short reads give short strings) *)
+(* StreamInfo.load(data): data is a StrictFileObject over the block content: a short read raises flac.error
+   (the same class as the rate check, so one length test up front is equivalent) *)
 Definition decode_flac_streaminfo (d : list Z) : result (list Z) :=
+  if zlen d <? 34 then Raise EMutagen else
   let min_blocksize := be_at 0 2 d in
   let max_blocksize := be_at 2 2 d in
   let min_framesize := be_at 4 3 d in
